@@ -170,10 +170,12 @@ def main():
                 else:
                     exec_in_module(mod, op["src"])
             elif kind == "setvar":
-                setattr(mod, op["name"], op["val"])
+                setattr(mod, op["name"], tuple(op["val"]) if op.get("tuple") else op["val"])
             elif kind == "mutate":
                 cur = getattr(mod, op["name"])
-                if isinstance(cur, list):
+                if isinstance(cur, tuple):         # (a tuple that holds a list: the list is mutated)
+                    cur[1][:] = op["val"][1]
+                elif isinstance(cur, list):
                     cur[:] = op["val"]
                 else:
                     cur.clear()
